@@ -310,12 +310,16 @@ def run(tier, seed):
                    "handle pairs} followed by a battery of every public Element/AutosarModel/ArxmlFile method with boundary arguments on live, "
                    "stale and foreign handles (fuzzer_calls = library calls made, each under catch_unwind + 3 s watchdog); (3) deep-nesting "
                    "probes (1000 / 3000 [/ 10000] nested packages x 15 actions) in child processes; (4) replays of the fixed findings.",
-        assumptions=["C12_no_panic_partial covers all 26 constructors of the operation alphabet; two argument / state classes are PENDING (covered by "
-                     "the correspondence and the fuzzer only): set_character_data with a Float value (f64::to_string is not modelled) and "
-                     "cross-model moves (move_element_full; side condition side12)",
+        assumptions=["C12_no_panic_all / C12_no_panic_histories cover all 26 constructors of the operation alphabet with every argument "
+                     "(cross-model moves included); the Float case of set_character_data is stated over run_opF: f64::to_string is an ORACLE "
+                     "(any function from the 64 bits to a byte string), its digits are not modelled",
+                     "C12_no_panic2_partial: of the large alphabet op2 only Op1, OpSort, OpSortModel are covered by a theorem; OpDuplicate, OpLoad, "
+                     "OpSetVersion, OpCheckCompat, OpSerializeFile, OpSerializeElem are PENDING (correspondence + fuzzer only)",
                      "SizeOk: every identifiables map has fewer than 10^39 entries (injectivity of format!(\"{counter}\") in make_unique_item_name)",
                      "check_fn (the regex validators) is total: C19",
-                     "op_wf: handles are handles (allocated elements, existing models / files); names and enum values are discriminants of the Rust enums"])
+                     "RootOK: the attribute list AutosarModel::new gives the root element uses attribute names / enum values of the tables",
+                     "op_wf: handles are handles (allocated elements - removed and foreign ones included -, existing models / files); element names "
+                     "and enum values are discriminants of the Rust enums; positions, strings, numbers, versions are arbitrary"])
 
 
 def replay(path):
